@@ -156,10 +156,18 @@ func verifyHashRuleSliceInfos(locations []int, slices []string) (map[int]int, er
 		return nil, errors.ErrLocationsCount
 	}
 	for i := 0; i < len(locations); i++ {
+		// a negative count would move sumTables backwards and list a sub table twice
+		if locations[i] < 0 {
+			return nil, errors.ErrLocationsNegative
+		}
 		for j := 0; j < locations[i]; j++ {
 			tableToSlice[j+sumTables] = i
 		}
 		sumTables += locations[i]
+	}
+	// a rule without any sub table cannot route a key (hash and mod divide by the table count)
+	if sumTables == 0 {
+		return nil, errors.ErrLocationsEmpty
 	}
 	return tableToSlice, nil
 }
